@@ -15,6 +15,8 @@ def main():
     props = [json.loads(l)["id"] for l in open(os.path.join(VERIF, "properties.jsonl"))]
     with open(os.path.join(VERIF, "tools", "not_applicable.json")) as f:
         na = json.load(f)
+    with open(os.path.join(VERIF, "tools", "claimed.json")) as f:
+        accepted = set(json.load(f))          # checks reviewed and accepted by the lead
     checks = []
     engines = {}
     claimed = set()
@@ -23,7 +25,7 @@ def main():
         mod = importlib.import_module("checks." + name)
         m = mod.META
         pid = m["property_id"]
-        if m.get("disabled"):
+        if m.get("disabled") or pid not in accepted:
             continue
         claimed.add(pid)
         checks.append({
